@@ -7,7 +7,7 @@ from fractions import Fraction
 from . import refinterp as I
 from . import refnum as R
 from . import refparse as P
-from .common import REPO, WORK, Stats, Violation, hx, pmap, shim, finish
+from .common import REPO, WORK, Stats, Violation, hx, pmap, shim, finish, collect
 
 A20 = ['형', '형.', '형..', '항.', '항...', '하앙...', '핫....', '흣...', '흐읏.', '흡...', '흐읍...', '흑', '흑.', '흑..',
        '흑....', '형.♥', '항...♥', '형..?♥', '항...♥!', '형.♡']
@@ -414,8 +414,7 @@ def run_c01(tier):
     for name, text in cur:
         for i in range(0, len(cin), 12):
             tasks.append(('curated', name, text, cin[i:i + 12], True))
-    for r in pmap(_task, [(t,) for t in tasks]):
-        st.merge(r)
+    collect(st, pmap(_task, [(t,) for t in tasks]))
     cov = {
         'states': len(st.sets.get('states', ())),
         'transitions': st.n.get('transitions', 0),
